@@ -29,7 +29,11 @@ From Oras Require Import Base.Prelude Model.Referrers.
 Definition tid := nat.
 Definition index := list desc.
 
-Inductive result := ROk | RIdxDel | RErr.
+(* RLost: the caller gets a plain error (like RErr) although the index PUT took effect
+   (the response was lost); a ghost distinction - the caller sees RErr *)
+Inductive result := ROk | RIdxDel | RErr | RLost.
+(* what the caller sees: nil, the index-delete error, or a plain error *)
+Definition seen (r : result) : result := match r with RLost => RErr | _ => r end.
 
 Inductive pc :=
 | Idle                                  (* updateReferrersIndex not called (yet) *)
@@ -65,6 +69,7 @@ Inductive event :=
 | EPrepare (t : tid) (fail : bool)
 | ECommit (t : tid)
 | EPut (t : tid) (fail : bool)
+| EPutLost (t : tid)              (* the PUT takes effect, its response is lost (5xx / broken connection) *)
 | EDel (t : tid) (fail : bool)
 | EComplete (t : tid)
 | EDone (t : tid)
@@ -187,6 +192,15 @@ Definition step (skipgc : bool) (s : state) (e : event) : option state :=
           else
             let j := if skipgc then match old with Some oi => oi :: junk s | None => junk s end else junk s in
             Some (set_pc (add_lin (set_reg s (Some new) (new :: store s) j)) t (after_put skipgc old))
+      | _ => None
+      end
+  | EPutLost t =>
+      (* the registry stores the new index and moves the tag; the client sees an error,
+         update() returns it: the old index is not deleted *)
+      match pcs s t with
+      | NeedPut new old =>
+          let j := match old with Some oi => oi :: junk s | None => junk s end in
+          Some (set_pc (add_lin (set_reg s (Some new) (new :: store s) j)) t (Completing RLost))
       | _ => None
       end
   | EDel t fail =>
@@ -314,7 +328,8 @@ Definition seq_op (st : option index * list N) (c : change) : option index * lis
    flag = failed).  The lock regions in between are inserted where the code performs
    them; [obs] logs the batch handed to update and the body of every PUT. *)
 Inductive vis := VG (t : tid) | VP (t : tid) (f : bool) | VU (t : tid) (f : bool) | VD (t : tid) (f : bool)
-             | VX.   (* the tag was dropped by another tag's deletion of a shared index *)
+             | VX    (* the tag was dropped by another tag's deletion of a shared index *)
+             | VL (t : tid).   (* PUT answered with an error although it took effect *)
 Inductive obs := OBatch (main : tid) (ms : list tid) | OPut (main : tid) (new : index).
 
 (* complete / release for callers 0..n-1 (ascending), one pass *)
@@ -364,6 +379,9 @@ Definition vis_step (sg : bool) (changes : list change) (acc : state * list obs)
     | VU t f =>
         let log1 := match pcs s t with NeedPut nw _ => log ++ [OPut t nw] | _ => log end in
         match step sg s (EPut t f) with Some s1 => Some (s1, log1) | None => None end
+    | VL t =>
+        let log1 := match pcs s t with NeedPut nw _ => log ++ [OPut t nw] | _ => log end in
+        match step sg s (EPutLost t) with Some s1 => Some (s1, log1) | None => None end
     | VD t f => match step sg s (EDel t f) with Some s1 => Some (s1, log) | None => None end
     | VX => match step sg s EExtDrop with Some s1 => Some (s1, log) | None => None end
     end in
